@@ -295,3 +295,37 @@ Proof.
   cbn zeta. split; [|vm_compute; reflexivity].
   intros [p v b]. unfold crev. cbn. f_equal. lia.
 Qed.
+
+(* ---------------------------------------------------------------- process groups *)
+(* "the external program is stopped when propagation ends" when the configured command is a
+   launcher: the PKilled outcome of the polling models is SIGTERM to the process GROUP of the
+   engine's direct child.  After killpg(g) no process of group g is alive — in particular the
+   program a launcher leading the group has started —, other groups are untouched, and
+   signalling the leader alone leaves the launched program running (the kernel behaviour
+   itself is observed by the check, not proved). *)
+Theorem C12_killpg_stops_group : forall g tb, any_alive (in_group g (sig_group g tb)) = false.
+Proof. exact killpg_stops_group. Qed.
+Print Assumptions C12_killpg_stops_group.
+
+Theorem C12_killpg_other_groups : forall g h tb, h <> g -> in_group h (sig_group g tb) = in_group h tb.
+Proof. exact killpg_other_groups. Qed.
+Print Assumptions C12_killpg_other_groups.
+
+Theorem C12_killpg_reaches_launched_program : forall L c tb l,
+  find (fun p => pr_pid p =? L) tb = Some l -> pr_pgid l = L ->
+  In (mkProc c L false) (sig_group L (spawn L c tb)) /\
+  any_alive (in_group L (sig_group L (spawn L c tb))) = false.
+Proof. exact killpg_reaches_launched. Qed.
+Print Assumptions C12_killpg_reaches_launched_program.
+
+Theorem C12_signal_leader_only_refuted :
+  exists L c tb, any_alive (in_group L (sig_pid L (spawn L c tb))) = true /\
+                 any_alive (in_group L (sig_group L (spawn L c tb))) = false.
+Proof. exact signal_leader_only_refuted. Qed.
+Print Assumptions C12_signal_leader_only_refuted.
+
+Example C12_process_group_example :
+  let tb := spawn 11 12 (spawn 10 11 [mkProc 10 10 true; mkProc 7 7 true]) in
+  sig_group 10 tb = [mkProc 10 10 false; mkProc 7 7 true; mkProc 11 10 false; mkProc 12 10 false] /\
+  sig_pid 10 tb = [mkProc 10 10 false; mkProc 7 7 true; mkProc 11 10 true; mkProc 12 10 true].
+Proof. cbn zeta. split; vm_compute; reflexivity. Qed.
